@@ -87,17 +87,16 @@ class _ChildFcntl:
                 self.io.report(b'B')
 
 
-def child_main(script, path, marker, rfd, wfd, keep_fds):
+def child_main(script, path, marker, rfd, wfd, close_fds, inherited=None):
     """Runs in the forked child; never returns."""
     try:
-        # drop every descriptor inherited from the controller except our own pipe ends
-        for name in os.listdir('/proc/self/fd'):
-            fd = int(name)
-            if fd > 2 and fd not in keep_fds:
-                try:
-                    os.close(fd)
-                except OSError:
-                    pass
+        # close the controller's pipe ends to the other children (harness plumbing); everything else is inherited as
+        # with any fork(): in particular descriptors the library itself may have left open in the parent
+        for fd in close_fds:
+            try:
+                os.close(fd)
+            except OSError:
+                pass
         _, fl = env.aiuti()
         io = _ChildIO(rfd, wfd)
         import time as _t
@@ -119,7 +118,27 @@ def child_main(script, path, marker, rfd, wfd, keep_fds):
                 return ltrace
             return None
 
-        lock = fl.FileLock(path, timeout=script.get('ctor_timeout', -1), reentrant=script.get('reentrant', False))
+        if script.get('inherit') and inherited is not None:
+            lock = inherited        # a FileLock object the parent created and already used before fork()
+            lock.timeout = script.get('ctor_timeout', -1)
+        else:
+            lock = fl.FileLock(path, timeout=script.get('ctor_timeout', -1), reentrant=script.get('reentrant', False))
+
+        def fds_on_lock_file():
+            n = 0
+            for name in os.listdir('/proc/self/fd'):
+                try:
+                    if os.readlink('/proc/self/fd/' + name) == path:
+                        n += 1
+                except OSError:
+                    pass
+            return n
+
+        def failed():
+            # (b) an acquire that reported failure must not keep the lock file open (let alone locked)
+            if lock.is_locked or fds_on_lock_file():
+                io.report(b'V', 2)
+            io.report(b'F')
 
         def critical():
             try:
@@ -164,7 +183,7 @@ def child_main(script, path, marker, rfd, wfd, keep_fds):
                     finally:
                         lock.release()
                 else:
-                    io.report(b'F')
+                    failed()
             elif how == 'ctx':
                 try:
                     with lock.acquire_ctx(**kw):
@@ -173,7 +192,7 @@ def child_main(script, path, marker, rfd, wfd, keep_fds):
                         else:
                             critical()
                 except TimeoutError:
-                    io.report(b'F')
+                    failed()
             else:
                 try:
                     with lock:
@@ -182,7 +201,7 @@ def child_main(script, path, marker, rfd, wfd, keep_fds):
                         else:
                             critical()
                 except TimeoutError:
-                    io.report(b'F')
+                    failed()
 
         io.report(b'L', 0)              # parked before the first line: the controller decides when we start
         if script.get('close_stdin'):
@@ -234,6 +253,7 @@ class Controller:
         self.kills = 0
         self.zombies = []
         self.helpers = []
+        self.inherited = None
 
     def viol(self, prop, oracle, sig, detail, **features):
         self.violations.append({'property': prop, 'oracle': oracle, 'signature': sig, 'detail': detail, 'features': features})
@@ -243,9 +263,10 @@ class Controller:
         p2c_r, p2c_w = os.pipe()
         sys.stdout.flush()
         sys.stderr.flush()
+        others = [fd for c in self.children if c.state in ('parked', 'blocked', 'new') for fd in (c.rfd, c.wfd)]
         pid = os.fork()
         if pid == 0:
-            child_main(script, self.path, self.marker, p2c_r, c2p_w, {p2c_r, c2p_w})
+            child_main(script, self.path, self.marker, p2c_r, c2p_w, others + [c2p_r, p2c_w], self.inherited)
         os.close(c2p_w)
         os.close(p2c_r)
         ch = Child(len(self.children), pid, c2p_r, p2c_w, script)
@@ -289,9 +310,11 @@ class Controller:
                 self.holders.remove(ch.idx)
         elif kind == 'V':
             ch.state = 'parked'
-            self.viol('C02', 'filelock.process_overlap' if line == 0 else 'filelock.process_not_locked_inside',
-                      'a process found the exclusive marker already present' if line == 0 else 'is_locked false inside the section',
-                      f'process {ch.idx} (step {self.steps})')
+            what = {0: ('filelock.process_overlap', 'a process found the exclusive marker already present'),
+                    1: ('filelock.process_not_locked_inside', 'is_locked false inside the section'),
+                    2: ('filelock.process_keeps_lock_after_failure',
+                        'an acquire that reported failure left the lock file open / locked in that process')}[line]
+            self.viol('C02', what[0], what[1], f'process {ch.idx} (step {self.steps})')
         elif kind == 'F':
             ch.state = 'parked'
             ch.failed += 1
@@ -460,6 +483,8 @@ CRASH_SCRIPTS = {
     'with_default_timeout': {'how': 'with', 'mode': 'default', 'reentrant': False, 'nest': 1, 'rounds': 1, 'ctor_timeout': 0.25, 'hold_steps': 2},
     'reentrant_nested': {'how': 'acquire', 'mode': 'default', 'reentrant': True, 'nest': 3, 'rounds': 1, 'ctor_timeout': -1, 'hold_steps': 2},
     'two_rounds': {'how': 'with', 'mode': 'default', 'reentrant': False, 'nest': 1, 'rounds': 2, 'ctor_timeout': -1, 'hold_steps': 1},
+    'inherited_object': {'how': 'acquire', 'mode': 'default', 'reentrant': False, 'nest': 1, 'rounds': 1, 'ctor_timeout': -1,
+                         'hold_steps': 2, 'inherit': True},
     'daemon_with_helper': {'how': 'acquire', 'mode': 'default', 'reentrant': False, 'nest': 1, 'rounds': 1, 'ctor_timeout': -1,
                            'hold_steps': 2, 'close_stdin': True, 'spawn_helper': True},
 }
@@ -479,6 +504,9 @@ def count_events(name):
     path = flworld.fresh_path()
     ctl = Controller(path, path + '.marker')
     try:
+        if not name.startswith('__fresh') and CRASH_SCRIPTS[name].get('inherit'):
+            _, fl = env.aiuti()
+            ctl.inherited = fl.FileLock(path)
         ch = ctl.spawn(CRASH_SCRIPTS[name] if not name.startswith('__fresh') else (FRESH if name == '__fresh__' else FRESH_TIMED))
         n = 0
         while ch.state in ('parked', 'blocked') and n < 5000:
@@ -503,7 +531,20 @@ def execute_crash(prog, sspec):
     fresh_budget = prog.get('fresh_budget') or (count_events('__fresh_timed__' if timed_probe else '__fresh__') + 5)
     killed_state = None
     try:
+        if CRASH_SCRIPTS[prog['script']].get('inherit'):
+            # the parent (this controller process, which stays alive) creates the object and uses it once before fork()
+            _, fl = env.aiuti()
+            pre = fl.FileLock(path)
+            assert pre.acquire(blocking=False)
+            pre.release()
+            pre2 = fl.FileLock(path)
+            pre.acquire(blocking=False)
+            assert not pre2.acquire(blocking=False)      # one failed attempt on a second object, too
+            pre.release()
+            ctl.inherited = pre
+            ctl.keepalive = (pre, pre2)
         victim = ctl.spawn(CRASH_SCRIPTS[prog['script']])
+        ctl.inherited = None
         others = [ctl.spawn(c['script']) for c in prog.get('contenders', ())]
         # park contenders at their seeded positions (they may block on the victim's lock: fine)
         plan = []
@@ -571,6 +612,13 @@ def execute_crash(prog, sspec):
             if v['property'] == 'C02':
                 v['property'] = 'C13'
                 v['oracle'] = v['oracle'].replace('filelock.process_', 'filelock.survivor_')
+        keep = getattr(ctl, 'keepalive', None)
+        if keep:
+            for lk in keep:
+                try:
+                    lk.release(force=True)
+                except Exception:  # noqa
+                    pass
         for c in ctl.children:
             if c.state == 'error':
                 ctl.viol('HARNESS', 'harness.child_error', 'child script raised', f'child {c.idx}')
